@@ -170,6 +170,15 @@ def run_prop(prop, tier, seed, finish=True):
             continue
         traces.append(tr)
         rep.count(1, key=('chain', json.dumps(tr['_script'], sort_keys=True)))
+    # pairs of strategy objects with different configurations refined alternately
+    rc = cfgs_random(prop, tier, rng)
+    for (c1, s1), (c2, s2) in list(zip(rc[0::2], rc[1::2]))[: (6 if tier == 'quick' else 60)]:
+        try:
+            for tr in P.paired_history(rng, c1, c2, min(s1, s2, 4)):
+                traces.append(tr)
+                rep.count(1, key=('paired', json.dumps(tr['_script'], sort_keys=True)))
+        except Exception as ex:
+            rep.exclude('paired history raised %r' % ex)
     tm['random_histories'] = time.time() - t0
     return conclude(rep, prop, traces, finish=finish)
 
